@@ -14,11 +14,12 @@
 EXTENDS StreamCore
 
 CONSTANTS
-  Streams,     \* set of [mode : {"sse","ndjson"}, bytes : Seq(0..255)]
+  Streams,     \* set of [mode : {"sse","ndjson"}, bytes : Seq(0..255), rule : {"bounded","cover"}]
   MaxFullLen,  \* streams up to this length get every subset of cut points
   MaxCuts,     \* longer streams get every chunking with at most this many cuts
   AltFullLen,  \* the same two bounds for responses that declare a non-UTF-8 charset
-  AltMaxCuts
+  AltMaxCuts,
+  CoverDepth   \* streams with rule "cover": transition cover of this depth (StreamCore!CoverSets)
 
 VARIABLES
   mode, bytes, cuts,  \* the scenario (fixed by Init)
@@ -34,7 +35,7 @@ Init ==
   /\ \E s \in Streams :
        /\ mode = s.mode
        /\ bytes = s.bytes
-       /\ \/ charset = "utf8" /\ cuts \in CutSets(Len(s.bytes), MaxFullLen, MaxCuts)
+       /\ \/ charset = "utf8" /\ cuts \in CutsFor(s, MaxFullLen, MaxCuts, CoverDepth)
           \/ charset = "latin1" /\ cuts \in CutSets(Len(s.bytes), AltFullLen, AltMaxCuts)
   /\ pos = 0
   /\ carry = <<>>
